@@ -155,17 +155,18 @@ def consistent(conds):
 
 
 class Path(object):
-    __slots__ = ("conds", "env", "effects", "result", "notes")
+    __slots__ = ("conds", "env", "effects", "result", "notes", "frozen")
 
-    def __init__(self, conds=None, env=None, effects=None, result=None, notes=None):
+    def __init__(self, conds=None, env=None, effects=None, result=None, notes=None, frozen=None):
         self.conds = conds or []
         self.env = env or {}
         self.effects = effects or []
         self.result = result
         self.notes = notes or []
+        self.frozen = frozen or {}      # safe mode: heap-reading temporaries overtaken by a heap change (name -> expr)
 
     def fork(self):
-        return Path(list(self.conds), dict(self.env), list(self.effects), self.result, list(self.notes))
+        return Path(list(self.conds), dict(self.env), list(self.effects), self.result, list(self.notes), dict(self.frozen))
 
     def cond_key(self):
         return frozenset(self.conds)
@@ -270,6 +271,29 @@ def _first_ifexp(e, bool_calls=()):
     return None
 
 
+class _IntBool(ast.NodeTransformer):
+    """int(A and Y) with boolean A  ->  int(Y) if A else 0   (dually for `or`; same for bool())."""
+
+    def __init__(self, bool_calls):
+        self.bool_calls = bool_calls
+
+    def visit_Call(self, n):
+        self.generic_visit(n)
+        if isinstance(n.func, ast.Name) and n.func.id in ("int", "bool") and len(n.args) == 1 and not n.keywords \
+                and isinstance(n.args[0], ast.BoolOp) and len(n.args[0].values) >= 2 and _is_boolish(n.args[0].values[0], self.bool_calls) \
+                and not _is_boolish(n.args[0], self.bool_calls):
+            b = n.args[0]
+            rest = b.values[1] if len(b.values) == 2 else ast.BoolOp(op=b.op, values=b.values[1:])
+            inner = self.visit_Call(ast.Call(func=n.func, args=[rest], keywords=[]))
+            is_and = isinstance(b.op, ast.And)
+            short = ast.Constant(value=(0 if is_and else 1) if n.func.id == "int" else (not is_and))
+            return ast.IfExp(test=b.values[0], body=inner if is_and else short, orelse=short if is_and else inner)
+        return n
+
+    def visit_Lambda(self, n):
+        return n
+
+
 def _replace(e, old, new):
     class R(ast.NodeTransformer):
         def visit(self, n):
@@ -282,7 +306,16 @@ def _replace(e, old, new):
 class Summariser(object):
     """paths = Summariser(stmts, track_attrs=True).run()"""
 
-    def __init__(self, stmts, qualname="", loops="opaque", track_attrs=True, try_handlers=True, bool_calls=()):
+    def __init__(self, stmts, qualname="", loops="opaque", track_attrs=True, try_handlers=True, bool_calls=(), safe=False, final_names=(), max_paths=MAX_PATHS):
+        self.max_paths = max_paths
+        # safe=True is the mode of the equivalence prover (sa/equiv.py): a temporary that reads the heap (attribute,
+        # item, call result) stands for its defining expression only until the next effect that can change the
+        # heap; then it becomes an opaque let-bound symbol.  Structure that matters to exceptional control flow
+        # (with / try / finally boundaries) is recorded as marker effects, nested definitions as their text.
+        self.safe = safe
+        self.final_names = list(final_names)
+        if safe:
+            track_attrs = False
         self.bool_calls = set(bool_calls)
         self.stmts = stmts
         self.qualname = qualname
@@ -306,12 +339,35 @@ class Summariser(object):
         for p in live:
             p.result = ("fall", None)
             self.done.append(p)
+        if self.final_names:
+            for p in self.done:
+                if p.result and p.result[0] in ("fall", "jump"):
+                    for nm in self.final_names:
+                        if nm in p.frozen:
+                            p.effects.append(("let", nm, p.frozen.pop(nm)))
+                        v = p.env.get(nm)
+                        p.effects.append(("final", nm, v if v is not None else ast.Name(id=nm, ctx=ast.Load())))
         return [p for p in self.done if consistent(p.conds)]
 
     # -------------------------------------------------------------- expressions
+    def sub(self, p, e):
+        """`e` with the path's temporaries replaced by their defining expressions; a frozen temporary that is read
+        here is declared (once) by a let effect."""
+        if e is None:
+            return None
+        r = subst(e, p.env)
+        if p.frozen:
+            for x in ast.walk(r):
+                if isinstance(x, ast.Name) and isinstance(x.ctx, ast.Load) and x.id in p.frozen:
+                    p.effects.append(("let", x.id, p.frozen.pop(x.id)))
+        return r
+
     def split(self, p, e):
         """[(path, expr)] with every unconditionally evaluated IfExp of `e` resolved by forking."""
-        e = subst(e, p.env)
+        changes = self.safe and self.may_change_heap(e)
+        e = _IntBool(self.bool_calls).visit(self.sub(p, e))
+        if changes:
+            self.bump(p)        # temporaries were read before the evaluation changed anything
         out = []
         work = [(p, e)]
         while work:
@@ -340,7 +396,7 @@ class Summariser(object):
                         b2 = ie2.body if truth else ie2.orelse
                     x2 = b2 if ie2 is x2 else _replace(x2, ie2, b2)
                     work.append((q2, x2))
-            if len(out) + len(work) > MAX_PATHS:
+            if len(out) + len(work) > self.max_paths:
                 raise Unsupported("too many paths")
         return out
 
@@ -353,13 +409,14 @@ class Summariser(object):
             for p in paths:
                 nxt.extend(self.stmt(st, p))
             paths = nxt
-            if len(paths) + len(self.done) > MAX_PATHS:
+            if len(paths) + len(self.done) > self.max_paths:
                 raise Unsupported("too many paths")
         return paths
 
     def kill(self, p, names):
         for nm in names:
             p.env.pop(nm, None)
+            p.frozen.pop(nm, None)
             for k in list(p.env):
                 if k.startswith(nm + "."):
                     p.env.pop(k, None)
@@ -368,7 +425,12 @@ class Summariser(object):
     def assign(self, p, target, value, at):
         if isinstance(target, ast.Name):
             # earlier bindings that mention this name keep their (already substituted) value
+            if self.safe and self.has_identity(value):
+                p.effects.append(("let", target.id, value))
+                p.env.pop(target.id, None)
+                return
             p.env[target.id] = value
+            p.frozen.pop(target.id, None)
             for k in list(p.env):
                 if k.startswith(target.id + "."):
                     p.env.pop(k, None)
@@ -382,11 +444,13 @@ class Summariser(object):
         elif isinstance(target, ast.Attribute):
             t = src(subst_target(target, p.env))
             p.effects.append(("store", t, value))
+            self.bump(p)
             if self.track_attrs:
                 p.env[t] = value
         elif isinstance(target, ast.Subscript):
             t = src(subst_target(target, p.env))
             p.effects.append(("store", t, value))
+            self.bump(p)
             # the container is no longer what it was bound to
             b = target.value
             if isinstance(b, ast.Name):
@@ -417,6 +481,73 @@ class Summariser(object):
                     for k in list(p.env):
                         if k.startswith(o + ".") and "." in k:
                             p.env.pop(k, None)
+
+    @staticmethod
+    def reads_heap(e):
+        for x in ast.walk(e):
+            if isinstance(x, (ast.Attribute, ast.Subscript, ast.Call, ast.Starred, ast.ListComp, ast.SetComp, ast.DictComp, ast.GeneratorExp,
+                              ast.Lambda, ast.Yield, ast.YieldFrom, ast.Await, ast.List, ast.Dict, ast.Set, ast.JoinedStr)):
+                return True
+        return False
+
+    @staticmethod
+    def has_identity(e):
+        return isinstance(e, (ast.List, ast.Dict, ast.Set, ast.ListComp, ast.SetComp, ast.DictComp, ast.GeneratorExp, ast.Lambda))
+
+    def may_change_heap(self, node):
+        """Evaluating this (unsubstituted) statement / expression can change the heap."""
+        from .cfg import NONMUTATING_METHODS, PURE_CALLS
+        for x in ast.walk(node):
+            if isinstance(x, ast.Call):
+                f = x.func
+                if isinstance(f, ast.Name) and (f.id in PURE_CALLS or f.id in ("enumerate", "zip", "reversed", "set", "frozenset", "dict", "any", "all", "sum",
+                                                                              "hasattr", "type", "repr", "ord", "chr", "text_type")):
+                    continue
+                if isinstance(f, ast.Attribute) and f.attr in NONMUTATING_METHODS:
+                    continue
+                return True
+            if isinstance(x, (ast.Attribute, ast.Subscript)) and isinstance(x.ctx, (ast.Store, ast.Del)):
+                return True
+            if isinstance(x, (ast.Yield, ast.YieldFrom, ast.Await)):
+                return True
+        return False
+
+    def impure_atoms(self, test):
+        """Atoms of a (substituted) test whose evaluation may change the heap."""
+        out = set()
+
+        def rec(e):
+            if isinstance(e, ast.UnaryOp) and isinstance(e.op, ast.Not):
+                return rec(e.operand)
+            if isinstance(e, ast.BoolOp):
+                for v in e.values:
+                    rec(v)
+                return
+            if isinstance(e, ast.Compare) and len(e.ops) > 1:
+                left = e.left
+                for op, right in zip(e.ops, e.comparators):
+                    rec(ast.Compare(left=left, ops=[op], comparators=[right]))
+                    left = right
+                return
+            if isinstance(e, ast.IfExp):
+                rec(e.test)
+                rec(e.body)
+                rec(e.orelse)
+                return
+            if self.may_change_heap(e):
+                out.add(atom(e)[0])
+        rec(test)
+        return out
+
+    def bump(self, p):
+        """A heap-changing effect happened: heap-reading temporaries become opaque symbols (recorded as let effects)."""
+        if not self.safe:
+            return
+        for nm in sorted(p.env):
+            v = p.env[nm]
+            if self.reads_heap(v):
+                p.frozen[nm] = v        # becomes a let effect if (and where) it is used again
+                del p.env[nm]
 
     def forget_mutated(self, p, node):
         """Locals bound to a container that `node` may mutate (method call on it, passed to a call, item store)
@@ -459,6 +590,14 @@ class Summariser(object):
         if isinstance(st, (ast.Pass, ast.Global, ast.Nonlocal, ast.FunctionDef, ast.AsyncFunctionDef, ast.ClassDef, ast.Import, ast.ImportFrom)):
             if isinstance(st, (ast.Import, ast.ImportFrom)):
                 self.kill(p, [(a.asname or a.name).split(".")[0] for a in st.names])
+                if self.safe:
+                    p.effects.append(("import", src(st), st))
+                    self.bump(p)
+            elif self.safe and not isinstance(st, ast.Pass):
+                # nested definitions are compared as text; global declarations as they are
+                p.effects.append(("decl", src(st), st))
+                if isinstance(st, (ast.FunctionDef, ast.AsyncFunctionDef, ast.ClassDef)):
+                    self.kill(p, [st.name])
             return [p]
         if isinstance(st, ast.Expr):
             if isinstance(st.value, ast.Constant):
@@ -490,7 +629,7 @@ class Summariser(object):
             out = []
             for q, e in self.split(p, st.value):
                 self.note_calls(q, e)
-                cur = subst(ast.copy_location(_load(st.target), st), q.env)
+                cur = self.sub(q, ast.copy_location(_load(st.target), st))
                 val = ast.BinOp(left=cur, op=st.op, right=e)
                 self.assign(q, st.target, val, st)
                 out.append(q)
@@ -506,13 +645,14 @@ class Summariser(object):
                 self.done.append(q)
             return []
         if isinstance(st, ast.Raise):
-            e = subst(st.exc, p.env) if st.exc is not None else None
+            e = self.sub(p, st.exc) if st.exc is not None else None
             p.result = ("raise", e)
             self.done.append(p)
             return []
         if isinstance(st, ast.If):
             out = []
-            test = subst(st.test, p.env)
+            test = self.sub(p, st.test)
+            impure = self.impure_atoms(test) if self.safe else ()
             self.note_calls(p, test)
             for truth, body in ((True, st.body), (False, st.orelse)):
                 for case in dnf(test, truth):
@@ -520,16 +660,19 @@ class Summariser(object):
                     q.conds.extend(case)
                     if not consistent(q.conds):
                         continue
+                    if impure and any(a in impure for a, _ in case):
+                        self.bump(q)        # only the operands this case evaluated can have changed anything
                     out.extend(self.block(body, [q]))
             return out
         if isinstance(st, ast.Assert):
             out = []
-            for case in dnf(subst(st.test, p.env), True):
+            atest = self.sub(p, st.test)
+            for case in dnf(atest, True):
                 q = p.fork()
                 q.conds.extend(case)
                 if consistent(q.conds):
                     out.append(q)
-            for case in dnf(subst(st.test, p.env), False):
+            for case in dnf(atest, False):
                 q = p.fork()
                 q.conds.extend(case)
                 if consistent(q.conds):
@@ -538,19 +681,52 @@ class Summariser(object):
             return out
         if isinstance(st, (ast.With, ast.AsyncWith)):
             for it in st.items:
-                e = subst(it.context_expr, p.env)
+                e = self.sub(p, it.context_expr)
                 self.note_calls(p, e)
                 p.effects.append(("with", src(e), e))
+                self.bump(p)
                 if it.optional_vars is not None:
                     self.assign(p, it.optional_vars, ast.Call(func=ast.Attribute(value=e, attr="__enter__", ctx=ast.Load()), args=[], keywords=[]), st)
-            return self.block(st.body, [p])
+            if not self.safe:
+                return self.block(st.body, [p])
+            # the extent of the block matters (what runs under the context manager): mark its end on every way out
+            saved = self.done
+            self.done = []
+            out = self.block(st.body, [p])
+            inner = self.done
+            self.done = saved
+            for q in out + inner:
+                q.effects.append(("endwith", "", st))
+                self.bump(q)
+            self.done.extend(inner)
+            return out
         if isinstance(st, ast.Try) or type(st).__name__ == "TryStar":
             out = []
             entry = p.fork()
             k = self.ordinal.get(id(st), 0)
             if self.try_handlers and st.handlers:
                 p.conds.append((Atom(("t", "try#%d raises" % k)), False))
+            if self.safe:
+                # what is inside the protected region matters: mark its extent
+                p.effects.append(("try", "#%d %s" % (k, "; ".join(src(h.type) if h.type is not None else "*" for h in st.handlers)), st))
+                saved_t = self.done
+                self.done = []
             body_paths = self.block(st.body, [p])
+            if self.safe:
+                inner_t = self.done
+                self.done = saved_t
+                for q in body_paths + inner_t:
+                    q.effects.append(("endtry", "#%d" % k, st))
+                if st.finalbody:
+                    # early exits run the finally block too
+                    for q in inner_t:
+                        res = q.result
+                        q.result = None
+                        for q2 in self.block(st.finalbody, [q]):
+                            q2.result = res
+                            self.done.append(q2)
+                else:
+                    self.done.extend(inner_t)
             if st.orelse:
                 body_paths = self.block(st.orelse, body_paths)
             out.extend(body_paths)
@@ -568,8 +744,14 @@ class Summariser(object):
                     self.kill(q, _assigned(st.body))
                     if h.name:
                         self.kill(q, [h.name])
+                    if self.safe:
+                        q.effects.append(("except", "#%d %s" % (k, tname), h))
+                        self.bump(q)
                     out.extend(self.block(h.body, [q]))
             if st.finalbody:
+                if self.safe:
+                    for q in out:
+                        q.effects.append(("finally", "#%d" % k, st))
                 out = self.block(st.finalbody, out)
             return out
         if isinstance(st, (ast.For, ast.AsyncFor, ast.While)):
@@ -577,8 +759,9 @@ class Summariser(object):
                 raise Unsupported("loop at line %d" % st.lineno)
             k = self.ordinal.get(id(st), 0)
             is_while = isinstance(st, ast.While)
-            head = subst(st.test if is_while else st.iter, p.env)
+            head = self.sub(p, st.test if is_while else st.iter)
             self.note_calls(p, head)
+            self.bump(p)        # iterations interleave with everything the body does
             names = sorted(_assigned([st]))
             self.forget_mutated(p, st)
             self.kill(p, names)
@@ -591,15 +774,15 @@ class Summariser(object):
                     if isinstance(x, ast.Return):
                         q = p.fork()
                         q.conds.append((Atom(("t", "returns inside loop#%d" % k)), True))
-                        q.result = ("return", subst(x.value, q.env) if x.value is not None else ast.Constant(value=None))
+                        q.result = ("return", self.sub(q, x.value) if x.value is not None else ast.Constant(value=None))
                         self.done.append(q)
                         break
                 return [p]
             # one symbolic iteration of the body: loop-carried names are the symbols name@loopK
             if is_while:
-                head_txt = "while " + src(subst(st.test, p.env))
+                head_txt = "while " + src(self.sub(p, st.test))
             else:
-                head_txt = "for %s in %s" % (src(subst(_load(st.target), p.env)), src(head))
+                head_txt = "for %s in %s" % (src(self.sub(p, _load(st.target))), src(head))
             p.effects.append(("loop", head_txt, st))
             if not is_while and isinstance(st.iter, ast.Call) and isinstance(st.iter.func, ast.Name) and st.iter.func.id == "enumerate" \
                     and len(st.iter.args) == 1 and not st.iter.keywords and isinstance(st.target, ast.Tuple) and isinstance(st.target.elts[0], ast.Name):
@@ -622,6 +805,15 @@ class Summariser(object):
                     q.result = None
                 else:
                     self.done.append(q)
+            if self.safe:
+                for q in after + broke:
+                    for nm in names:
+                        if nm in q.frozen:
+                            q.effects.append(("carry", nm, q.frozen.pop(nm)))
+                            continue
+                        v = q.env.get(nm)
+                        if v is not None and not (isinstance(v, ast.Name) and v.id == "%s@loop%d" % (nm, k)):
+                            q.effects.append(("carry", nm, v))
             after.append(zero)
             for q in after + broke:
                 q.effects.append(("endloop", "#%d" % k, st))
@@ -634,6 +826,7 @@ class Summariser(object):
         if isinstance(st, ast.Delete):
             for t in st.targets:
                 p.effects.append(("del", src(subst_target(t, p.env)), t))
+                self.bump(p)
                 if isinstance(t, ast.Name):
                     self.kill(p, [t.id])
             return [p]
